@@ -274,6 +274,14 @@ func c14Deadlines(rc *simrt.RunCtx) {
 	rounds := (chunks + int(n) - 1) / int(n)
 	span := time.Duration(rounds+1) * 2 * lat
 	dl := time.Duration(rc.Pick(int(span/time.Millisecond)+1, "wl.deadline")) * time.Millisecond
+	// sometimes the application is slow to call Recv, so that chunks are
+	// already queued when a (tiny) deadline starts: the deadline then expires
+	// at the very instant a chunk is ready
+	lag := time.Duration(0)
+	if side == "recv" && rc.Pick(3, "wl.lag") == 0 {
+		lag = time.Duration(rc.Pick(int(span/time.Millisecond)+1, "wl.lagms")) * time.Millisecond
+		dl = []time.Duration{0, time.Nanosecond, time.Microsecond, time.Millisecond}[rc.Pick(4, "wl.tiny")]
+	}
 	rc.Sample("M=%d N=%d %s deadline %v into a %d-chunk message of %d bytes (one-way latency %v)", m, n, side, dl, chunks, l, lat)
 
 	var mu sync.Mutex
@@ -308,8 +316,15 @@ func c14Deadlines(rc *simrt.RunCtx) {
 	}()
 	var got [][]byte
 	recvTimeouts := 0
+	tinyRepeats := 0
+	if lag > 0 {
+		tinyRepeats = rc.Pick(4, "wl.tinyrepeats") // poll several times with the tiny deadline
+	}
 	for len(got) < len(msgs) {
-		if len(got) == 1 && side == "recv" && recvTimeouts == 0 {
+		if len(got) == 1 && side == "recv" && recvTimeouts < 1+tinyRepeats {
+			if recvTimeouts == 0 && lag > 0 {
+				time.Sleep(lag)
+			}
 			srv.SetRecvTimeout(dl)
 		} else {
 			srv.SetRecvTimeout(30 * time.Second)
@@ -319,7 +334,7 @@ func c14Deadlines(rc *simrt.RunCtx) {
 			if errors.Is(err, errRecvTimeout) {
 				recvTimeouts++
 				rc.Fault("recv-deadline-expired")
-				if recvTimeouts > 4 {
+				if recvTimeouts > 9 {
 					break
 				}
 				continue
